@@ -80,6 +80,29 @@ def write_cfg(overrides, name=None):
     return path
 
 
+NEUTRAL = {
+    "display": (["-q"], ["--log-level", "DEBUG"], ["--log-level", "WARNING"], ["--log-level", "ERROR"]),
+    "grid": (["-g", "0.0", "14.0", "0.5"], ["-w", "2.0", "10.0", "2.0"], ["-g", "1.0", "13.0", "0.25", "-w", "1.0", "13.0", "0.5"],
+             ["-r", "low-pH"]),
+    "protonation": (["--protonate-all"],),
+    "keep": (["-k"],),
+    "swap-display": (["-d"],),
+}
+
+
+def neutral_options(rng, families=("display", "grid", "protonation", "keep", "swap-display"), p=0.3, classes=None):
+    """Options that enter through a non-default door of the program but must leave the clause under
+    test untouched (every run of a comparison gets the same list). Returns [] with probability 1-p."""
+    if rng.random() >= p:
+        return []
+    out = []
+    for fam in rng.sample(list(families), rng.choice((1, 1, 2))):
+        out += list(rng.choice(NEUTRAL[fam]))
+        if classes is not None:
+            classes.append("extra-options:" + fam)
+    return out
+
+
 def finish(case, viol, counts, classes, nontrivial, sample, evals=None, inconclusive=None, digest=None):
     """Merge the function-level monitors' counters/witnesses and build the result record."""
     c2, w2 = contracts.drain()
